@@ -70,9 +70,14 @@ def judge(net, an, tag):
                 continue
             p, q = float(r.at[idx, "p_mw"]), float(r.at[idx, "q_mvar"])
             if not (abs(p) <= ZERO and abs(q) <= ZERO):   # NaN fails this too
+                ex = []
+                if tab == "ext_grid" and np.isnan(p) and np.isnan(q) and not net.ext_grid.in_service.any():
+                    # recorded defect: results_gen._get_gen_results skips the whole ext_grid result table when no
+                    # ext_grid is in service (slack provided by a gen), leaving the initial NaN
+                    ex = ["explained=no_ext_grid_in_service"]
                 vs.append(core.violation("zero_power", {"table": tab, "index": int(idx), "bus": b, "why": why,
                                                         "reported": [p, q], "run": tag},
-                                         tokens=base_toks + ["tab=" + tab, why, "nan" if (np.isnan(p) or np.isnan(q)) else "nonzero"],
+                                         tokens=base_toks + ["tab=" + tab, why, "nan" if (np.isnan(p) or np.isnan(q)) else "nonzero"] + ex,
                                          klass=tab))
     for tab, (bcols, pcols) in c_topo.BRANCH_TABLES.items():
         t = net[tab]
@@ -133,11 +138,14 @@ def run_case(case):
 
 
 def gen_cases(tier):
-    k = 3 if tier == "quick" else 4
+    """quick: k<=2 with every dressing, the k=3 layer with the richest dressing D2 (a superset of D1's elements);
+    thorough: k<=3 with every dressing, the k=4 layer with D2.  check_connectivity {True, False} everywhere."""
+    kfull, ktop = (2, 3) if tier == "quick" else (3, 4)
     cases = []
     for b in BASES:
-        for devs in na.subsets(c_nets.switching_menu(b), k):
-            cases.append({"base": b, "devs": [list(d) for d in devs], "dressings": c_nets.DRESSINGS, "cc": [True, False]})
+        for devs in na.subsets(c_nets.switching_menu(b), ktop):
+            dr = c_nets.DRESSINGS if len(devs) <= kfull else ["D2"]
+            cases.append({"base": b, "devs": [list(d) for d in devs], "dressings": dr, "cc": [True, False]})
     return cases
 
 
@@ -151,10 +159,12 @@ def explore(tier, seed):
             pp.runpp(n, check_connectivity=False)
     cases = gen_cases(tier)
     k = 3 if tier == "quick" else 4
-    rep.rule = ("E1: every subset of <=%d pairwise-compatible deviations from the switching/status menus of %s, each with dressings %s "
-                "and check_connectivity {True, False}; distinct+non-trivial = converged and judged runs keyed by (base, deviation hash, "
-                "dressing, check_connectivity, oracle dead set, out-of-service set)" % (k, BASES, c_nets.DRESSINGS))
+    rep.rule = ("E1: every subset of <=%d pairwise-compatible deviations from the switching/status menus of %s; subsets of size <%d with "
+                "each dressing of %s, the size-%d layer with dressing D2; check_connectivity {True, False} everywhere; distinct+non-trivial "
+                "= converged and judged runs keyed by (base, deviation hash, dressing, check_connectivity, oracle dead set, "
+                "out-of-service set)" % (k, BASES, k, c_nets.DRESSINGS, k))
     rep.extra["bound_k"] = k
+    rep.extra["bound_k_all_dressings"] = k - 1
     rep.extra["deviation_sets"] = len(cases)
     rep.extra["menu_sizes"] = {b: len(c_nets.switching_menu(b)) for b in BASES}
     core.run_cases(rep, run_case, cases)
